@@ -21,11 +21,12 @@ from translator.pyexpr import TranslateError
 HERE = os.path.dirname(os.path.dirname(os.path.abspath(__file__)))
 
 THEOREM_FILES = ["C17_splits.v", "C17_proj.v", "C17_assembly3d.v", "C17_scale.v", "C17_assembly.v", "C17_degenerate3d.v", "C17_miehe2d.v",
-                 "C17_generic3d.v",
+                 "C17_generic3d.v", "C17_trig3d.v", "C17_trig3d_end_to_end.v",
                  "C17_history.v", "C17_history_damage.v"]
 # compile-order dependencies between the theorem files (all need Gen_Splits.v)
 DEPS = {"C17_scale.v": ["C17_proj.v"], "C17_assembly.v": ["C17_scale.v"], "C17_degenerate3d.v": ["C17_proj.v"],
-        "C17_miehe2d.v": ["C17_assembly.v", "C17_splits.v"], "C17_generic3d.v": ["C17_proj.v", "C17_assembly3d.v"]}
+        "C17_miehe2d.v": ["C17_assembly.v", "C17_splits.v"], "C17_generic3d.v": ["C17_proj.v", "C17_assembly3d.v"],
+        "C17_trig3d_end_to_end.v": ["C17_generic3d.v", "C17_trig3d.v"]}
 # which concrete-failure key prefixes "explain" a broken theorem file
 RELATED = {
     "C17_splits.v": ("partition:", "law:"),
@@ -34,6 +35,8 @@ RELATED = {
     "C17_assembly.v": ("proj:2d", "eig:2d", "scale-invariance:2d", "nonfinite:2d"),
     "C17_miehe2d.v": ("proj:2d", "partition:2d", "scale-invariance:2d", "eig:2d"),
     "C17_assembly3d.v": ("proj:3d", "scale-invariance:3d", "nonfinite:3d"),
+    "C17_trig3d.v": ("eig:3d", "nonfinite:3d"),
+    "C17_trig3d_end_to_end.v": ("eig:3d", "proj:3d", "nonfinite:3d"),
     "C17_generic3d.v": ("proj:3d", "eig:3d", "scale-invariance:3d", "nonfinite:3d"),
     "C17_degenerate3d.v": ("eig:3d", "proj:3d", "nonfinite:3d", "scale-invariance:3d"),
     "C17_history.v": ("history-", "damage-decreases:BoundConstrain", "damage-without-load", "damage-imposed-lost:BoundConstrain", "unit-change:"),
@@ -248,6 +251,7 @@ def run(ctx):
         ctx.cov["max_partition_error_rel"] = st["max_partition_err"]
         ctx.cov["max_eigen_error_rel_by_class"] = st["max_eig_err"]
         ctx.cov["failing_case_counts"] = R["counts"]
+        ctx.cov["eig3d_branch_taken_by_class_and_boundary_gap"] = st.get("branch_table")
         ctx.obligation("correspondence: finite + partition + eigen/projector agreement on all cases", not R["failures"],
                        "; ".join("%s x%d" % (k, v) for k, v in sorted(R["counts"].items()))[:1500])
         for f in R["failures"]:
@@ -313,7 +317,7 @@ def run(ctx):
         "3-D assembly theorems (C17_assembly3d.v) hold for any rank-one orthogonal spectral resolution; they are instantiated on the generic branch only (C17_generic3d.v), given that the three values are distinct roots of the characteristic polynomial. The sums over the stacked axis (diag_sum, G_sum) and the moveaxis/None broadcasting are checked by statement templates, not interpreted.",
         "2-D assembly theorem: the routine receives the Kelvin-Mandel packing of A (Project_matrix_to_vector is translated; its inverse Project_vector_to_matrix is assumed to be the inverse packing, checked by the eigen correspondence).",
         "3-D degenerate branches: proved given the double-root Vieta relations; which branch the floating-point theta comparison selects, and the Frobenius normalisation of M1, M3, are not modelled.",
-        "3-D: the projector formulas of all four branches are proved to be spectral resolutions given the characteristic-polynomial relations (proj3d_distinct_partial, proj3d_case2/3/4); the arccos root formula (that the returned values ARE the roots), the branch selection, and the 3-D assembly of projP on the repeated-eigenvalue branches (where it is wrong: finding proj:3d:two_eq) are checked by correspondence, not proved.",
+        "3-D: the projector formulas of all four branches are proved to be spectral resolutions given the characteristic-polynomial relations (proj3d_distinct_partial, proj3d_case2/3/4), and on the generic branch the arccos values are proved to be the ordered distinct roots (trig_values_are_roots, trig_values_ordered; g**(3/2) modelled as sqrt(g)^3, real arithmetic); the branch selection by the floating-point theta comparison, and the 3-D assembly of projP on the repeated-eigenvalue branches (where it is wrong: finding proj:3d:two_eq) are checked by correspondence, not proved.",
         "Hypotheses of the partition theorems about the material law (C = lamb IxI + 2 mu I, bulk, C^T S C = C, inv_sqrtC sqrtC = I, Stress-split compliance coefficients) are checked numerically on the implementation at 1e-10.",
         "Det/Trace of 2x2 and Project_vector_to_matrix are modelled by hand (checked by the eigen correspondence).",
         "BoundConstrain: scipy.optimize.lsq_linear is trusted to return a point within its bounds; the theorem quantifies over every admissible point.",
